@@ -277,14 +277,16 @@ def dropSock (s : St) : St :=
   | some w => if w.isOpen then ({ s with sock := none }).emit (.sockDropped w.idx) else { s with sock := none }
   | none => s
 
-/-- `WebSocketApp.close()` -/
-def appClose (c : Cfg) (s : St) : St × Bool :=
-  let s := { s with keepRunning := false }
+/-- `if self.sock: self.sock.close(**kwargs); self.sock = None` -/
+def closeSock (c : Cfg) (s : St) : St × Bool :=
   match s.sock with
   | none => (s, true)
   | some _ =>
     let (s, ok) := wsClose c s
     if !ok then (s, false) else (dropSock s, true)
+
+/-- `WebSocketApp.close()` -/
+def appClose (c : Cfg) (s : St) : St × Bool := closeSock c { s with keepRunning := false }
 
 /-! ### callbacks -/
 
@@ -331,6 +333,17 @@ def teardown (c : Cfg) (s : St) (frame : Option Bytes) : St × R Unit :=
   let s := dropSock s
   callback c s .onClose (closeArgs c frame)
 
+/-- the part of handleDisconnect after the error has been reported:
+    KeyboardInterrupt/SystemExit → teardown and re-raise; reconnect on → nothing (the caller dials again);
+    otherwise teardown. -/
+def afterReport (c : Cfg) (s : St) (e : AExn) : St × R Unit :=
+  if e = .ki then
+    match teardown c s none with
+    | (s, .ok ()) => (s, .exc .ki)
+    | r => r
+  else if c.reconnect ≠ 0 then (s, .ok ())
+  else teardown c s none
+
 def handleDisconnect (c : Cfg) (s : St) (e : AExn) (rc : Bool) : St × R Unit :=
   let s := if Gen.appDisconnectSetsErrored then { s with hasErrored := true } else s
   let s := if Gen.appDisconnectStopsPing then stopPing s else s
@@ -338,13 +351,7 @@ def handleDisconnect (c : Cfg) (s : St) (e : AExn) (rc : Bool) : St × R Unit :=
   match r with
   | .exc e' => (s, .exc e')
   | .halt => (s, .halt)
-  | .ok () =>
-    if e = .ki then
-      match teardown c s none with
-      | (s, .ok ()) => (s, .exc .ki)
-      | r => r
-    else if c.reconnect ≠ 0 then (s, .ok ())
-    else teardown c s none
+  | .ok () => afterReport c s e
 
 /-! ### read, check -/
 
